@@ -16,7 +16,7 @@ ESTAT = [None, True, False]
 TAGS = [[], ['x'], ['x', 'y z']]
 EXTRAS = [{}, {'k': 'v', 'n': {'deep': [1, 'two']}}, {'none': None, 'zero': 0, 'f': False}]
 TTCS = [None, {'type': 'function', 'name': 'Exponential', 'arguments': [0.1]}]
-MITRE = [None, 'T1059']
+MITRE = [None, 'T1059', '']
 FMT = ['json', 'yml', 'yaml']
 _CNT = [0]
 
@@ -199,7 +199,7 @@ def body_model(cube, **kw):
 
 
 def queries(tier):
-    picks = [I('ds', 0, 4), I('es', 0, 2), I('tg', 0, 2), I('ex', 0, 2), I('tt', 0, 1), I('mi', 0, 1)]
+    picks = [I('ds', 0, 4), I('es', 0, 2), I('tg', 0, 2), I('ex', 0, 2), I('tt', 0, 1), I('mi', 0, 2)]
     nondef = '(ds == 0) + (es == 0) + (tg == 0) + (ex == 0) + (tt == 0) + (mi == 0)'
     if tier == 'quick':
         n = 2
